@@ -1,5 +1,103 @@
-(* C09 — pinned statements; proofs are in Server/*Proofs.v. *)
-From ZV Require Import Server.Server Server.ServerExec.
+(* C09 — a faulty client ends only its own connection; the server and the others carry on.
+   Only pinned statements; proofs are in Server/ServerSurvive.v, ServerFuel.v (the loop only ends on a
+   listener error; the model never panics or runs out of fuel), ServerStruct.v (conservation of
+   connections), ServerInv.v (a well-behaved connection is never dropped) and ServerNonint.v. *)
+From ZV Require Import Server.Server Server.ServerSpec Server.ServerStruct Server.ServerInv
+  Server.ServerSurvive Server.ServerFuel Server.ServerLocal Server.ServerNonint Server.ServerExamples.
 
-Example C09_nonvacuous : True.
-Proof. exact I. Qed.
+(* For every service and every script — garbage, truncated frames, oversized messages, read and
+   write errors, end of stream at any moment, on any number of connections — the only way the loop
+   ends is a listener error: without a ListenerFail event the server is Running after every poll;
+   the model's explicit Panic (index out of range in `connections[idx]` / `swap_remove`) and
+   out-of-fuel outcomes never occur. *)
+Theorem C09_server_survives :
+  forall (P : params) (E : list (eev P)) (s0 : sstate P) (s : sv P) (T : list (tev P)),
+  exec P E (init_sv P s0) = (s, T) ->
+  (~ In ListenerFail E -> stat s = Running) /\
+  (stat s = Exited -> has_lfail P E = true) /\
+  stat s <> Panicked /\ stat s <> OutOfFuel.
+Proof. exact server_survives. Qed.
+Print Assumptions C09_server_survives.
+
+(* Conservation, for every script: a connection is dropped at most once, and once dropped it is in
+   none of the server's lists. *)
+Theorem C09_removed_exactly :
+  forall (P : params) (E : list (eev P)) (s0 : sstate P) (s : sv P) (T : list (tev P)),
+  exec P E (init_sv P s0) = (s, T) ->
+  (forall c, dcount P c T <= 1) /\ (forall c, 0 < dcount P c T -> occ P c s = 0) /\ stat s <> Panicked.
+Proof. exact dropped_at_most_once. Qed.
+Print Assumptions C09_removed_exactly.
+
+(* ... and nothing else is dropped: a connection without a fault of its own (well-formed decodable
+   frames below the limit, no transport fault, listener alive) is never dropped, whatever faults
+   the other connections have. *)
+Theorem C09_healthy_never_dropped :
+  forall (P : params), (0 < p_step P)%N ->
+  forall (c : nat) (fs : list (list byte)),
+  Forall frame_ok fs -> (forall f, In f fs -> decode P f <> None) ->
+  (N.of_nat (length (wire fs)) < p_limit P)%N ->
+  forall (E : list (eev P)) (s0 : sstate P) (s : sv P) (T : list (tev P)),
+  clean P c E -> input_of P false c E = wire fs ->
+  exec P E (init_sv P s0) = (s, T) -> dcount P c T = 0.
+Proof.
+  intros P Hs c fs H1 H2 H3 E s0 s T H4 H5 H6.
+  exact (proj1 (connection_view P Hs c fs H1 H2 H3 E s0 s T H4 H5 H6)).
+Qed.
+Print Assumptions C09_healthy_never_dropped.
+
+(* Non-interference, for services with per-connection state ([local]: the answer depends on the call
+   and on the state named [skey call], only that state changes) and runs in which the name c is used
+   by connection c only ([keys_ok]): run a script E with and without everything that concerns a
+   connection f — its connect, all its bytes and faults, its streams' events.  Every other
+   well-behaved connection c has the same view of both runs; in particular exactly the same replies
+   are written to it.  An undecodable call of f never reaches the service: the view of c lists every
+   invocation made for c, and they are the same. *)
+Theorem C09_noninterference :
+  forall (P : params) (L : local P), (0 < p_step P)%N ->
+  forall (f c : nat) (fs : list (list byte)), c <> f ->
+  Forall frame_ok fs -> (forall fr, In fr fs -> decode P fr <> None) ->
+  (N.of_nat (length (wire fs)) < p_limit P)%N ->
+  forall (E : list (eev P)) (s0 : sstate P) (s : sv P) (T : list (tev P)) (s' : sv P) (T' : list (tev P)),
+  clean P c E -> input_of P false c E = wire fs ->
+  exec P (E ++ [Poll]) (init_sv P s0) = (s, T) -> stat s = Running -> keys_ok P c T ->
+  exec P (without P f (E ++ [Poll])) (init_sv P s0) = (s', T') -> stat s' = Running -> keys_ok P c T' ->
+  view P c T' = view P c T /\ writes P c T' = writes P c T.
+Proof. exact noninterference. Qed.
+Print Assumptions C09_noninterference.
+
+(* The service is invoked only with decoded calls: every invocation in any trace carries a call
+   that [decode] produced — by construction of the model ([on_call] invokes [handle] only in the
+   branch [Msg (Some cl)]); a frame that does not decode removes its connection instead.
+   One-step form: an undecodable frame at the selected connection yields no service invocation. *)
+Theorem C09_undecodable_never_reaches_service :
+  forall (P : params) (s : sv P) cs idx st s' t,
+  on_call P s cs idx (Msg None) = (st, s', t) -> sst s' = sst s /\ invokes P t = [].
+Proof.
+  intros P s cs idx st s' t H. unfold on_call in H.
+  destruct (nth_error cs idx); inversion H; subst; split; reflexivity.
+Qed.
+Print Assumptions C09_undecodable_never_reaches_service.
+
+(* Non-vacuity: connection 0 sends garbage ('!' does not decode) and is dropped; connection 1 sends
+   two calls.  All hypotheses of C09_noninterference hold for f = 0, c = 1, and the two traces
+   differ (the faulty client is really there) while connection 1 gets the same two replies. *)
+Example C09_nonvacuous :
+  let fs := [[97;1]; [98;1]]%N in
+  let E := [NewConn 0; NewConn 1; Arrive 0 [33;0]%N; Arrive 1 [97;1;0]%N; Poll;
+            Arrive 1 [98;1;0]%N] : list (eev ex_params) in
+  clean ex_params 1 E /\ input_of ex_params false 1 E = wire fs /\
+  let (s, T) := exec ex_params (E ++ [Poll]) (init_sv ex_params tt) in
+  let (s', T') := exec ex_params (without ex_params 0 (E ++ [Poll])) (init_sv ex_params tt) in
+  stat s = Running /\ stat s' = Running /\ keys_ok ex_params 1 T /\ keys_ok ex_params 1 T' /\
+  dcount ex_params 0 T = 1 /\ dcount ex_params 1 T = 0 /\
+  writes ex_params 1 T = [WSingle [97;1]; WSingle [98;1]]%N /\
+  writes ex_params 1 T' = [WSingle [97;1]; WSingle [98;1]]%N.
+Proof.
+  cbv zeta. split; [repeat constructor; discriminate|]. split; [reflexivity|].
+  destruct (exec ex_params _ (init_sv ex_params tt)) as [s T] eqn:E1.
+  destruct (exec ex_params (without _ _ _) (init_sv ex_params tt)) as [s' T'] eqn:E2.
+  vm_compute in E1. vm_compute in E2. inversion E1; subst s T. inversion E2; subst s' T'.
+  split; [reflexivity|]. split; [reflexivity|].
+  split; [apply keys_okb_ok; reflexivity|]. split; [apply keys_okb_ok; reflexivity|].
+  repeat split; reflexivity.
+Qed.
